@@ -393,6 +393,10 @@ func runC09(e *Engine, r *Report, tier string) {
 			bad := ""
 			badPos := ""
 			for _, s := range m.ENA {
+				if why := e.nativeActionCallUnjournaled(s.Call, 0); why != "" {
+					bad, badPos = why, e.InstrPos(s.Call)
+					continue
+				}
 				if s.Closure == nil {
 					bad, badPos = "ExecuteNativeAction is not given a closure literal", e.InstrPos(s.Call)
 					continue
@@ -735,6 +739,34 @@ func runC10(e *Engine, r *Report, tier string) {
 		for _, o := range sub11.Obls {
 			if o.Rule == "R4" {
 				r.add("R7", "C11.R4 "+o.Construct, o.Status, o.Pos, o.Detail)
+			}
+		}
+	}
+	r.Rule("R8", "a share allowance exists only if the granting call frame was kept: allowance writes are journaled with the EVM frame (C09.R1/R2 for the methods that write allowances)", 2, "C09 obligations of methods reaching SetAllowance")
+	{
+		sub09 := NewReport("C09", "other")
+		runC09(e, sub09, tier)
+		writers := map[string]bool{}
+		for _, m := range e.precompileMethods() {
+			if m.Run == nil {
+				continue
+			}
+			for f := range e.Reach([]*ssa.Function{m.Run}, func(x *ssa.Function) bool { return !isFx(x) }) {
+				allCalls(f, func(c ssa.CallInstruction) {
+					if callName(c) == "SetAllowance" {
+						writers[m.Name] = true
+					}
+				})
+			}
+		}
+		for _, o := range sub09.Obls {
+			if o.Rule != "R1" && o.Rule != "R2" {
+				continue
+			}
+			for w := range writers {
+				if strings.HasPrefix(o.Construct, w) {
+					r.add("R8", "C09."+o.Rule+" "+o.Construct, o.Status, o.Pos, o.Detail)
+				}
 			}
 		}
 	}
@@ -1542,4 +1574,68 @@ func (e *Engine) c10PayoutEqualsValue(r *Report) {
 	if nsites == 0 {
 		r.Fail("R6", "pay-out sites", "", "UNRESOLVED-ANCHOR: no call of a routine that moves coins out of the precompile's own account")
 	}
+}
+
+
+// nativeActionCallUnjournaled: the journaling primitive is the ExecuteNativeAction method of the EVM state DB (an interface
+// invoke, or a dependency's method). A call to an fx-core function of that name is a wrapper: it is accepted only if its
+// action parameter is never called directly and is only handed on to the primitive (or to another such wrapper) — otherwise
+// some path runs the action outside the journal (round-7 seed C09: "a call sent by the transaction sender itself needs no
+// snapshot"). Returns "" when journaled, else the reason.
+func (e *Engine) nativeActionCallUnjournaled(c ssa.CallInstruction, depth int) string {
+	cc := c.Common()
+	if cc.IsInvoke() {
+		return ""
+	}
+	f := cc.StaticCallee()
+	if f == nil {
+		return "ExecuteNativeAction is called through a function value: cannot decide that the action is journaled"
+	}
+	if !isFx(f) {
+		return ""
+	}
+	if depth > 3 {
+		return "wrapper chain around ExecuteNativeAction too deep to decide"
+	}
+	var action *ssa.Parameter
+	for _, p := range f.Params {
+		if sig, ok := p.Type().Underlying().(*types.Signature); ok && sig.Params().Len() == 1 && strings.HasSuffix(sig.Params().At(0).Type().String(), "types.Context") {
+			action = p
+		}
+	}
+	if action == nil {
+		return "fx-core function " + e.FnKey(f) + " named ExecuteNativeAction takes no action closure"
+	}
+	handed := 0
+	for _, ref := range *action.Referrers() {
+		call, ok := ref.(ssa.CallInstruction)
+		if !ok {
+			if _, isDbg := ref.(*ssa.DebugRef); isDbg {
+				continue
+			}
+			return "wrapper " + e.FnKey(f) + " stores or forwards the action in a way that cannot be followed"
+		}
+		if call.Common().Value == ssa.Value(action) {
+			return "wrapper " + e.FnKey(f) + " calls the action directly on some path (outside the state DB's journal): its effects are then not undone with the EVM frame — and a failed top-level call still commits the state DB"
+		}
+		if callName(call) != "ExecuteNativeAction" {
+			return "wrapper " + e.FnKey(f) + " hands the action to " + callName(call) + ", which is not the journaling primitive"
+		}
+		if why := e.nativeActionCallUnjournaled(call, depth+1); why != "" {
+			return why
+		}
+		handed++
+	}
+	if handed == 0 {
+		return "wrapper " + e.FnKey(f) + " never hands the action to the state DB"
+	}
+	// every success path of the wrapper must go through the primitive
+	off := MustPassThrough(f, nil, func(i ssa.Instruction) bool {
+		call, ok := i.(ssa.CallInstruction)
+		return ok && callName(call) == "ExecuteNativeAction"
+	})
+	if off != nil {
+		return "wrapper " + e.FnKey(f) + " can return success without running the action through the state DB"
+	}
+	return ""
 }
